@@ -52,10 +52,13 @@ class HouseholderSequence(Transform):
             ).long()
             return torch.index_select(a, dim, order_index)
 
-        qv = tile(torch.eye(num_transforms // 2, features), 0, 2)
+        # Pairs of equal unit vectors (each pair is the identity); the basis vectors are reused cyclically
+        # when there are more pairs than features, so that no reflection vector is zero.
+        basis = torch.eye(features)[torch.arange(num_transforms // 2) % features]
+        qv = tile(basis, 0, 2)
         if np.mod(num_transforms, 2) != 0:  # odd number of transforms, including 1
             qv = torch.cat((qv, torch.zeros(1, features)))
-            qv[-1, num_transforms // 2] = 1
+            qv[-1, (num_transforms // 2) % features] = 1
         self.q_vectors = nn.Parameter(qv)
 
     @staticmethod
